@@ -7,6 +7,9 @@ package searchdomains
 // This is an searchdomains plugin that adds default DNS search domains.
 
 import (
+	"fmt"
+	"strings"
+
 	"github.com/coredhcp/coredhcp/handler"
 	"github.com/coredhcp/coredhcp/logger"
 	"github.com/coredhcp/coredhcp/plugins"
@@ -50,13 +53,38 @@ func copySlice(original []string) []string {
 	return copied
 }
 
+// checkDomains rejects names that cannot be encoded as RFC1035 labels: the
+// encoder writes len(label) into one byte of which the top two bits mark a
+// compression pointer, so the resulting option would not parse back (or parse
+// back to something else) on every single reply
+func checkDomains(domains []string) error {
+	for _, domain := range domains {
+		// one length byte per label plus the terminating zero-length label
+		if len(domain)+2 > 255 {
+			return fmt.Errorf("search domain %q is longer than 255 bytes", domain)
+		}
+		for _, label := range strings.Split(domain, ".") {
+			if len(label) == 0 || len(label) > 63 {
+				return fmt.Errorf("invalid search domain %q: labels must be 1 to 63 bytes long", domain)
+			}
+		}
+	}
+	return nil
+}
+
 func setup6(args ...string) (handler.Handler6, error) {
+	if err := checkDomains(args); err != nil {
+		return nil, err
+	}
 	v6SearchList = args
 	log.Printf("Registered domain search list (DHCPv6) %s", v6SearchList)
 	return domainSearchListHandler6, nil
 }
 
 func setup4(args ...string) (handler.Handler4, error) {
+	if err := checkDomains(args); err != nil {
+		return nil, err
+	}
 	v4SearchList = args
 	log.Printf("Registered domain search list (DHCPv4) %s", v4SearchList)
 	return domainSearchListHandler4, nil
